@@ -69,6 +69,30 @@ REFS = [
 ]
 
 
+class RawAliasArg(Arg):
+    """a named argument whose NAME is spelled as a raw identifier: `r#type = expr`; the placeholder refers to it as `{type}`
+    (`alias` holds the un-raw name, which is the name std matches it by)"""
+
+    def text(self):
+        return "r#%s = %s" % (self.alias, self.expr)
+
+
+class SpelledAttr(Attr):
+    """the same attribute with its literal WRITTEN differently: a raw string (`r"{_0}"`, `r#"{:x}"#`) or with the opening brace of the
+    placeholder escaped (backslash-u{7b} / backslash-x7b for `{`). The literal's VALUE -- what std::fmt sees -- is unchanged."""
+
+    def __init__(self, lit, args=(), spelling="raw"):
+        Attr.__init__(self, lit, args)
+        self.spelling = spelling
+
+    def inner(self):
+        t = self.lit.text()
+        tok = {"raw": 'r"%s"' % t, "rawhash": 'r#"%s"#' % t, "rawhash2": 'r##"%s"##' % t,
+               "u7b": '"%s"' % t.replace("{", "\\u{7b}", 1), "x7b": '"%s"' % t.replace("{", "\\x7b", 1),
+               "x7d": '"%s"' % (t[:-1] + "\\x7d")}[self.spelling]
+        return ", ".join([tok] + [a.text() for a in self.args])
+
+
 def shape(kind, vname=None):
     if kind == "t1":
         return Variant(vname, [None])
@@ -243,6 +267,26 @@ def cases(tier, seed):
     add("debug_variant_bare_ptr_fieldb_of_n2", "Debug", "n2", Attr([PH("b", ty="p")]), enum=True)
     add("debug_bare_ptr_rawkw", "Debug", "raw:type", Attr([PH("type", ty="p")]))
     add("debug_mod_ptr_width", "Debug", "t1", Attr([PH("_0", ty="p", width=4)]))                                            # inert
+    # L. the NAMED ARGUMENT is spelled as a raw identifier, the placeholder uses the un-raw name: its only argument, by its name
+    #    (defect fixed in /repo d5ce99d: the alias was compared as `r#type` == "type" and the attribute fell back to write!)
+    add("rawalias_type_disp", "Display", "t1", Attr([PH("type")], [RawAliasArg("_0", "type")]))
+    add("rawalias_match_lhex_deref", "Display", "t1", Attr([PH("match", ty="x")], [RawAliasArg("*_0", "match")]))
+    add("rawalias_fn_oct_variant", "Octal", "n1", Attr([PH("fn", ty="o")], [RawAliasArg("name.twin()", "fn")]), enum=True)
+    add("rawalias_in_dbg_debug", "Debug", "t1", Attr([PH("in", ty="?")], [RawAliasArg("_0", "in")]))
+    add("rawalias_loop_uexp_debug_variant", "Debug", "n1", Attr([PH("loop", ty="E")], [RawAliasArg("*name", "loop")]), enum=True)
+    add("rawalias_type_mod_alt", "Display", "t1", Attr([PH("type", alt=True)], [RawAliasArg("_0", "type")]))               # inert
+    # M. the literal WRITTEN as a raw string / with an escaped brace: its value is one bare placeholder (seed C05_r4_3: the token text was parsed)
+    add("spelled_raw_fieldname", "Display", "t1", SpelledAttr([PH("_0")], spelling="raw"))
+    add("spelled_rawhash_lhex_imp_pos", "Display", "t1", SpelledAttr([PH(None, ty="x")], ["_0"], spelling="rawhash"))
+    add("spelled_rawhash2_named", "Binary", "n1", SpelledAttr([PH("name", ty="b")], spelling="rawhash2"))
+    add("spelled_u7b_dbg_fieldname", "Display", "n1", SpelledAttr([PH("name", ty="?")], spelling="u7b"))
+    add("spelled_x7b_oct_alias", "Octal", "t1", SpelledAttr([PH("a", ty="o")], [Arg("*_0", "a")], spelling="x7b"))
+    add("spelled_x7d_close", "Display", "t1", SpelledAttr([PH("_0", ty="e")], spelling="x7d"))
+    add("spelled_raw_variant", "LowerHex", "t1", SpelledAttr([PH("_0", ty="x")], spelling="raw"), enum=True)
+    add("spelled_rawhash_debug", "Debug", "t1", SpelledAttr([PH("_0", ty="?")], spelling="rawhash"))
+    add("spelled_u7b_debug_variant", "Debug", "n1", SpelledAttr([PH("name")], spelling="u7b"), enum=True)
+    add("spelled_raw_mod_width", "Display", "t1", SpelledAttr([PH("_0", width=5)], spelling="raw"))                         # inert
+    add("spelled_rawhash_ctx_text", "Display", "t1", SpelledAttr(["a", PH("_0")], spelling="rawhash"))                      # inert
     if tier == "thorough":
         # the wider product: every trait x every reference form x (no modifier | each modifier), context none;
         # a seeded sample of trait x reference x context x modifier beyond that
